@@ -1,6 +1,6 @@
 (* Dispatcher of the extracted model: one S-expression in, one out. *)
 From Coq Require Import String.
-From HS Require Import Base.Prelude Model.Version Model.SortableDict Model.Grid Model.Qty Model.Eq Model.Escape Model.Value Model.Json Model.ZincDump.
+From HS Require Import Base.Prelude Model.Version Model.SortableDict Model.Grid Model.Qty Model.Eq Model.Escape Model.Value Model.Json Model.ZincDump Model.ZincParse.
 
 Definition run_command (c : sexp) : sexp :=
   match c with
@@ -18,6 +18,7 @@ Definition run_command (c : sexp) : sexp :=
       else if str_eqb name (s_ "qty-table") then cmd_qty_table args
       else if str_eqb name (s_ "esc") then cmd_esc args
       else if str_eqb name (s_ "zdump") then cmd_zdump args
+      else if str_eqb name (s_ "zparse") then cmd_zparse args
       else if str_eqb name (s_ "jdump") then cmd_jdump args
       else if str_eqb name (s_ "jparse") then cmd_jparse args
       else if str_eqb name (s_ "read-str") then cmd_read_quoted false args
